@@ -179,6 +179,8 @@ class Ownership:
             if same:
                 allowed.append('existing')
         if allowed:
+            if owned and ':' in ident:
+                allowed.append('ValueError')   # an id the documentation forbids may always be refused
             return Expect(allowed, existing=same)
         new = Entry(DEST, mgr(mid) if owned else PERMANENT, name=name, url=url, ptype=pt)
         if owned and ':' in ident:
